@@ -211,7 +211,7 @@ class SetEncoder(encoder.SequenceEncoder):
                     if namedType.isOptional and not component.isValue:
                             continue
 
-                    if namedType.isDefaulted and component == namedType.asn1Object:
+                    if namedType.isDefaulted and self._isDefault(component, namedType):
                             continue
 
                     compsMap[id(component)] = namedType
@@ -247,7 +247,7 @@ class SetEncoder(encoder.SequenceEncoder):
                     # accepts may spell the default (octets for a text string)
                     component = defaultValue.clone(component)
 
-                if namedType.isDefaulted and component == namedType.asn1Object:
+                if namedType.isDefaulted and self._isDefault(component, namedType):
                     continue
 
                 compsMap[id(component)] = namedType
